@@ -500,7 +500,10 @@ func c02TypeByName(name string) reflect.Type {
 	return nil
 }
 
-var c02Arena []byte
+var (
+	c02Arena []byte
+	c02Calls int
+)
 
 func segDecode(entry int, doc []byte, x any) (err error, pan string) {
 	defer func() {
@@ -511,10 +514,12 @@ func segDecode(entry int, doc []byte, x any) (err error, pan string) {
 	// the caller recycles the buffer it passed once the call has returned (no
 	// zero-copy flag is set, so the target owns everything it holds)
 	// ... and it is the same buffer for every call of the run: same address, new content
-	if cap(c02Arena) < len(doc) {
+	if cap(c02Arena) < len(doc)+8 {
 		c02Arena = make([]byte, 2*len(doc)+64)
 	}
-	own := c02Arena[:len(doc):len(doc)]
+	c02Calls++
+	off := (c02Calls & 1) * 5
+	own := c02Arena[off : off+len(doc) : off+len(doc)]
 	copy(own, doc)
 	defer func() {
 		for i := range own {
@@ -649,6 +654,7 @@ func c02GenScenario(r *core.Run) *c02Scenario {
 
 func runC02(r *core.Run) {
 	resetLibrary()
+	c02Calls = 0
 	var sc *c02Scenario
 	if r.Scenario != nil {
 		sc = &c02Scenario{}
